@@ -141,7 +141,16 @@ def op_wrong_prefix(rnd, t):
     return m.group(1) + "[" + wrong + m.group(3) + "]" + t[t.index("{"):], "parse_or_generate"
 
 
-OPS = [op_paren, op_bracket, op_two_atoms, op_symbol, op_dist, op_list_len, op_neg_weight, op_mixture_tail, op_pct, op_no_dist, op_missing_prefix, op_wrong_prefix]
+def op_prefix_id(rnd, t):
+    """the prefix keeps a descriptor of the terminal's symbol (still compatible with the repeat units), the left terminal gets another id"""
+    m = re.match(r"^([^{\[]+)\{\[([$<>])(\d*)\]", t)
+    if not m:
+        return None
+    other = str(int(m.group(3) or "0") + rnd.choice([1, 2, 7]))
+    return m.group(1) + "[" + m.group(2) + m.group(3) + "]{[" + m.group(2) + other + "]" + t[m.end():], "parse_or_generate"
+
+
+OPS = [op_paren, op_bracket, op_two_atoms, op_symbol, op_dist, op_list_len, op_neg_weight, op_mixture_tail, op_pct, op_no_dist, op_missing_prefix, op_wrong_prefix, op_prefix_id]
 
 
 def run_impl(text, expect, system=False):
@@ -167,7 +176,7 @@ def run_impl(text, expect, system=False):
     except fw.Timeout:
         return ("timeout",)
     except Exception as e:  # noqa
-        if "endless loop" in str(e):
+        if fw.scipy_draw_failure(e):
             return ("error", "scipy")
         return ("error", fw.exc_class(e))
 
